@@ -71,6 +71,7 @@ type Stats struct {
 	MaxWriters   int   // max simultaneously open write handles on one file
 	BytesWritten int64
 	SilentDamage int // files damaged behind the writer's back (SetDamageOnClose)
+	ReadFaults   int // reads that failed on purpose (SetReadFault)
 }
 
 // Disk is one incarnation's file system.
@@ -89,6 +90,7 @@ type Disk struct {
 	lastFaultKind int
 	lastFaultPath string
 	Env           map[string]string
+	readFaults map[int]syscall.Errno // see SetReadFault
 	// damageSuffix/damageMode: see SetDamageOnClose
 	damageSuffix string
 	damageMode   int
@@ -189,6 +191,7 @@ func (d *Disk) ClearFaults() {
 	d.mu.Lock()
 	defer d.mu.Unlock()
 	d.faults = map[int]Fault{}
+	d.readFaults = nil
 	d.fullAt, d.fullEnd = 0, 0
 }
 
@@ -207,6 +210,9 @@ func (d *Disk) Clone() *Disk {
 	n.logging = true
 	return n
 }
+
+// LoseUnsynced as the torn argument of ImageAt: see there.
+const LoseUnsynced = -2
 
 // ImageAt materialises the crash image in which exactly the first j logged
 // operations are persistent and, if torn >= 0 and operation j is a write, the
@@ -273,7 +279,23 @@ func (d *Disk) ImageAt(j int, torn int) *Disk {
 			}
 		}
 	}
+	// torn == LoseUnsynced: the other extreme a crash may produce - every name-space operation (create, rename,
+	// remove) of the prefix is persistent, but file data written after the file's last fsync is not (a journalled
+	// file system orders its metadata, not the data of files nobody synced)
+	lastSync := map[int]int{}
+	if torn == LoseUnsynced {
+		for i := 0; i < j; i++ {
+			if d.log[i].Kind == OpFsync {
+				lastSync[d.log[i].Ino] = i
+			}
+		}
+	}
 	for i := 0; i < j; i++ {
+		if torn == LoseUnsynced && (d.log[i].Kind == OpWrite || d.log[i].Kind == OpTrunc) {
+			if f, ok := lastSync[d.log[i].Ino]; !ok || f < i {
+				continue
+			}
+		}
 		apply(&d.log[i], -1)
 	}
 	if torn >= 0 && j < len(d.log) && d.log[j].Kind == OpWrite {
@@ -581,6 +603,12 @@ func (d *Disk) ReadDir(p string) ([]fs.DirEntry, error) {
 func (d *Disk) ReadFile(p string) ([]byte, error) {
 	d.mu.Lock()
 	defer d.mu.Unlock()
+	if e, ok := d.readFaults[d.st.Reads]; ok {
+		d.st.Reads++
+		d.st.ReadFaults++
+		d.st.FaultsFired["read:"+e.Error()]++
+		return nil, perr("read", p, e)
+	}
 	d.st.Reads++
 	n := d.lookup(p)
 	if n == nil {
@@ -590,6 +618,17 @@ func (d *Disk) ReadFile(p string) ([]byte, error) {
 		return nil, perr("read", p, syscall.EISDIR)
 	}
 	return append([]byte{}, n.data...), nil
+}
+
+// SetReadFault makes the read with the given index (Stats().Reads at the time it is issued: whole-file reads and
+// reads through a handle count alike) fail with errno and return no data.
+func (d *Disk) SetReadFault(index int, errno syscall.Errno) {
+	d.mu.Lock()
+	defer d.mu.Unlock()
+	if d.readFaults == nil {
+		d.readFaults = map[int]syscall.Errno{}
+	}
+	d.readFaults[index] = errno
 }
 
 // PutFile installs a file directly (not logged as a system-under-test
@@ -729,6 +768,12 @@ func (h *Handle) Read(b []byte) (int, error) {
 	}
 	if h.n.dir {
 		return 0, perr("read", h.name, syscall.EISDIR)
+	}
+	if e, ok := h.d.readFaults[h.d.st.Reads]; ok {
+		h.d.st.Reads++
+		h.d.st.ReadFaults++
+		h.d.st.FaultsFired["read:"+e.Error()]++
+		return 0, perr("read", h.name, e)
 	}
 	h.d.st.Reads++
 	if len(b) == 0 {
